@@ -437,11 +437,17 @@ def stream_sched_close(ctx, boost):
 # file-backed storage with sub-containers  <->  Model/CacheFile.v (fs_run)
 # ==========================================================================================
 
-def gen_fs_prog(rng, n):
+FS_CLOSE = ('close', 'exit', 'with')     # Storage.close(), Storage.__exit__, `with storage:`
+
+
+def gen_fs_prog(rng, n, storage='PickleStorage'):
     """operations on a tree of containers; closed containers stay addressable.  Not generated: close() of an open
-    container with a separately closed descendant (see the header of coq/Model/CacheFile.v)."""
+    container with a separately closed descendant (see the header of coq/Model/CacheFile.v); for the in-memory
+    Storage: delete of a key that is not stored (`del self.data[key]`: KeyError, DictCache never does it) and a
+    second subcontainer of the same name (Storage.subcontainer ignores the name)."""
     opened = {(): True}
     order = [()]
+    have = {(): set()}
     ops = []
     v = 10
     for _ in range(n):
@@ -450,24 +456,35 @@ def gen_fs_prog(rng, n):
         k = rng.randrange(3)
         if r < 0.25:
             v += 1
-            ops.append(['save', list(p), k, v])
-        elif r < 0.45:
+            ops.append(['save', list(p), k, v + (1000 * rng.randint(1, 5) if rng.random() < 0.2 else 0)])
+            if opened[p]:
+                have[p].add(k)
+        elif r < 0.43:
             ops.append(['load', list(p), k])
-        elif r < 0.55:
+        elif r < 0.53:
+            if storage == 'Storage' and opened[p] and k not in have[p]:
+                continue
             ops.append(['delete', list(p), k])
-        elif r < 0.62:
+            if opened[p]:
+                have[p].discard(k)
+        elif r < 0.59:
             ops.append(['preload', list(p), k])
+        elif r < 0.64:
+            ops.append([rng.choice(['bool', 'repr']), list(p)])
         elif r < 0.85 and len(p) < 3:
             nm = rng.randrange(2)
-            ops.append(['sub', list(p), nm])
             q = p + (nm,)
+            if storage == 'Storage' and q in opened:
+                continue
+            ops.append(['sub', list(p), nm])
             if opened[p] and q not in opened:
                 opened[q] = True
+                have[q] = set()
                 order.append(q)
         else:
             if opened[p] and any(not o for q, o in opened.items() if len(q) > len(p) and q[:len(p)] == p):
                 continue
-            ops.append(['close', list(p)])
+            ops.append([rng.choice(FS_CLOSE) if rng.random() < 0.4 else 'close', list(p)])
             if opened[p]:
                 for q in opened:
                     if q[:len(p)] == p:
@@ -479,15 +496,20 @@ def fs_oracle(case, r):
     """dict per container, written from the documentation: a closed container refuses everything with ValueError,
     closing a container closes everything below it, the top container removes the directory"""
     d, opened = {(): {}}, {(): True}
+    pickle_ = case['storage'] == 'PickleStorage'
     for t, (op, o) in enumerate(zip(case['ops'], r['out'])):
         p = tuple(op[1])
-        if not opened[p]:
+        if op[0] == 'bool':
+            want = ['bool', opened[p]]
+        elif op[0] == 'repr':           # mentions the class, says "closed" exactly when closed
+            want = ['repr', not opened[p], True]
+        elif not opened[p]:
             want = ['exc', 'ValueError']
         elif op[0] == 'save':
             d[p][op[2]] = op[3]
             want = ['none']
         elif op[0] == 'load':
-            want = ['val', d[p][op[2]]] if op[2] in d[p] else ['exc', 'FileNotFoundError']
+            want = ['val', d[p][op[2]]] if op[2] in d[p] else ['exc', 'FileNotFoundError' if pickle_ else 'KeyError']
         elif op[0] == 'delete':
             d[p].pop(op[2], None)
             want = ['none']
@@ -496,7 +518,7 @@ def fs_oracle(case, r):
         elif op[0] == 'sub':
             q = p + (op[2],)
             if q in d:
-                want = ['exc', 'ValueError']
+                want = ['exc', 'ValueError']        # (never generated for the in-memory Storage)
             else:
                 d[q], opened[q] = {}, True
                 want = ['none']
@@ -512,6 +534,8 @@ def fs_oracle(case, r):
             return 'container %s: _opened = %s at the end, expected %s' % (path, op_, opened[tuple(path)])
         if not opened[()] and files:
             return 'files left after the top container was closed: %s' % files
+        if not pickle_ and not op_:
+            continue        # in memory a closed sub-container drops its dict; a closed HDF5 group is not read
         if opened[()] and dict((a, b) for a, b in files) != d[tuple(path)]:
             return 'container %s holds %s on disk, a dict gives %s' % (path, files, d[tuple(path)])
     # the runner's own final close() of the top container: fine when nothing was closed before; when the top container
@@ -522,17 +546,24 @@ def fs_oracle(case, r):
         return 'final close() gave %s and left %s behind' % (r.get('final_close'), r.get('leftover'))
     if not opened[()] and (r.get('final_close') != 'ValueError' or r.get('leftover')):
         return 'close() of the closed top container gave %s, left behind: %s' % (r.get('final_close'), r.get('leftover'))
+    if r.get('open_fds') and (all(opened.values()) or not opened[()]):
+        return 'file descriptors still open below the cache directory after close(): %s' % r['open_fds'][:3]
     return None
 
 
 def coq_fs_case(case, r):
     ops = []
     for op in case['ops']:
+        if op[0] in ('bool', 'repr'):
+            continue            # no effect on the containers: judged by the oracle only
         p = c20.zlist(op[1])
-        name = {'load': 'FLoad', 'save': 'FSave', 'delete': 'FDelete', 'preload': 'FPreload', 'sub': 'FSub', 'close': 'FClose'}[op[0]]
+        name = {'load': 'FLoad', 'save': 'FSave', 'delete': 'FDelete', 'preload': 'FPreload', 'sub': 'FSub', 'close': 'FClose',
+                'exit': 'FClose', 'with': 'FClose'}[op[0]]
         ops.append(CoqRaw('(%s %s%s)' % (name, p, ''.join(' ' + coq_lit(x) for x in op[2:]))))
     outs = []
-    for o in r['out']:
+    for op, o in zip(case['ops'], r['out']):
+        if op[0] in ('bool', 'repr'):
+            continue
         if o[0] == 'none':
             outs.append([0])
         elif o[0] == 'val':
@@ -553,6 +584,7 @@ def check_fs_cases(ctx, cases):
         if err:
             ctx.fail('correspondence', 'file-storage runner failed: %s' % err[-500:], None)
             continue
+        c20.c20_cover.absorb('file-storage', r)
         for j, x in enumerate(r):
             results[i + j * nproc] = x
     coq_cases, meta = [], []
@@ -568,8 +600,9 @@ def check_fs_cases(ctx, cases):
         bad = fs_oracle(case, r)
         if bad:
             ctx.fail('oracle', 'file-storage (%s): %s' % (case['storage'], bad), replay)
-        coq_cases.append(coq_fs_case(case, r))
-        meta.append(replay)
+        if case['storage'] == 'PickleStorage':      # Model/CacheFile.v is tied to PickleStorage; the others: oracle only
+            coq_cases.append(coq_fs_case(case, r))
+            meta.append(replay)
     bad, err = common.coq_failing_indices('cases_c20_fs', ['Base.Prelude', 'Model.Cache', 'Model.CacheFile', 'Model.CacheFileCheck'],
                                           'check_fs', coq_cases, shard=400)
     if err:
@@ -585,5 +618,8 @@ def stream_file_storage(ctx, boost):
     rng = ctx.rng
     cases = [{'storage': 'PickleStorage', 'ops': gen_fs_prog(rng, rng.randint(3, ctx.pick(14, 30)))}
              for _ in range(ctx.pick(250, 1500) * boost)]
+    for st in ('Storage', 'Hdf5Storage'):       # the same programs on the other storage classes (dict oracle)
+        cases += [{'storage': st, 'ops': gen_fs_prog(rng, rng.randint(3, ctx.pick(14, 30)), st)}
+                  for _ in range(ctx.pick(80, 500) * boost)]
     check_fs_cases(ctx, cases)
     ctx.cov.setdefault('wall_breakdown_s', {}).update({'file-storage': round(time.time() - t0)})
